@@ -283,3 +283,65 @@ Qed.
 (* the plan is not empty: 18 decisions *)
 Example wf_plan_len : length (plan_of_events (rev (ss_log (wrap_phase1 wi_WA (map tokinfo_of wf_l) f30_lines)))) = 18%nat.
 Proof. vm_compute. reflexivity. Qed.
+
+(* ------------------------------------------------------------------ *)
+(* both phases, for a file without multi-line string literals: the string stage changes nothing, nothing is reflowed *)
+Definition no_ml (l : list ftoken) : Prop := forall p, In p l -> is_ml_string (t_ty (fst p)) = false.
+
+Lemma ml_visit_no_ml rs l flag i : no_ml l -> ml_visit rs (l, flag) i = (l, flag).
+Proof.
+  intros H. unfold ml_visit. cbn [fst]. destruct (nth_error l i) as [[tok f]|] eqn:E; [|reflexivity].
+  destruct (f_ignored f); [reflexivity|]. pose proof (H (tok, f) (nth_error_In _ _ E)) as Hm. cbn [fst] in Hm. rewrite Hm. reflexivity.
+Qed.
+
+Lemma ml_lines_no_ml rs all : forall rest i l acc, no_ml l -> ml_lines rs all rest i l acc = (l, acc).
+Proof.
+  induction rest as [|ln r IH]; intros i l acc H; [reflexivity|]. cbn [ml_lines].
+  assert (Hf : forall toks flag, fold_left (ml_visit rs) toks (l, flag) = (l, flag))
+    by (induction toks as [|t ts IHt]; intros flag; [reflexivity|]; cbn [fold_left]; rewrite ml_visit_no_ml by exact H; apply IHt).
+  rewrite Hf. apply IH. exact H.
+Qed.
+
+Lemma no_ml_upd l : forall i g, no_ml l -> no_ml (upd_ftok i g l).
+Proof.
+  induction l as [|[tok f] r IH]; intros i g H; [destruct i; exact H|]. destruct i as [|i]; cbn [upd_ftok]; intros p [<-|Hp].
+  - exact (H (tok, f) (or_introl eq_refl)).
+  - exact (H p (or_intror Hp)).
+  - exact (H (tok, f) (or_introl eq_refl)).
+  - apply (IH i g); [intros q Hq; exact (H q (or_intror Hq))|exact Hp].
+Qed.
+
+Lemma no_ml_phase1 plan l : no_ml l -> no_ml (zero_line_starts (apply_plan plan l)).
+Proof.
+  intros H. assert (H1 : no_ml (apply_plan plan l)).
+  { unfold apply_plan. revert l H. induction plan as [|pd r IH]; intros l H; [exact H|]. cbn [fold_left]. apply IH. apply no_ml_upd. exact H. }
+  intros p Hp. unfold zero_line_starts in Hp. apply in_map_iff in Hp. destruct Hp as ([tok f] & <- & Hin).
+  pose proof (H1 (tok, f) Hin) as Hty. destruct (0 <? f_nl f); exact Hty.
+Qed.
+
+(* with format_multiline_strings = true and no multi-line string: the vector of phase 1, two phase markers, no reflow *)
+Theorem olf_model_no_ml rs W lines l : no_ml l ->
+  fst (fst (olf_model rs W true lines l)) = fst (fst (olf_model rs W false lines l))
+  /\ snd (fst (olf_model rs W true lines l)) = snd (fst (olf_model rs W false lines l)) ++ [Ev_Phase 2]
+  /\ snd (olf_model rs W true lines l) = snd (olf_model rs W false lines l).
+Proof.
+  intros H. unfold olf_model.
+  rewrite (ml_lines_no_ml rs lines lines 0 _ [] (no_ml_phase1 _ l H)). cbn [fold_left fst snd sst_log ss_log ss_fuel_err rev].
+  repeat split.
+Qed.
+
+(* C10 at the level the reconstructor consumes, both phases, for files without multi-line strings *)
+Corollary olf_model_indep_no_ml rsA rsB WA WB lines l :
+  w_iter WA = w_iter WB -> w_bbb WA = w_bbb WB -> parents_ok lines = true -> no_ml l ->
+  unconstrained_bound (map tokinfo_of l) lines (w_indw WA) (w_contw WA) <= w_max WA ->
+  unconstrained_bound (map tokinfo_of l) lines (w_indw WB) (w_contw WB) <= w_max WB ->
+  fst (fst (olf_model rsA WA true lines l)) = fst (fst (olf_model rsB WB true lines l))
+  /\ map ev_erase (filter is_D (snd (fst (olf_model rsA WA true lines l)))) = map ev_erase (filter is_D (snd (fst (olf_model rsB WB true lines l)))).
+Proof.
+  intros H1 H2 Hp Hn HA HB.
+  destruct (olf_model_no_ml rsA WA lines l Hn) as (A1 & A2 & _). destruct (olf_model_no_ml rsB WB lines l Hn) as (B1 & B2 & _).
+  destruct (olf_model_phase1_indep rsA rsB WA WB lines l H1 H2 Hp HA HB) as (E1 & E2).
+  rewrite A1, B1, A2, B2, !filter_app. cbn [filter is_D]. rewrite !app_nil_r. split; [exact E1|exact E2].
+Qed.
+
+Print Assumptions olf_model_indep_no_ml.
